@@ -97,6 +97,12 @@ CFG = {
                  "SuspenseBoundary::to_html_async_with_buf (Suspense, Transition, Await), ErrorBoundaryView::to_html_async_with_buf, "
                  "RenderHtml::to_html_stream_in_order/out_of_order"],
     "assumptions": [
+        "text next to text (round-5 seed 1): elements whose children are text nodes and Vecs / tuples / islands that END in text, each "
+        "followed by a text sibling, generated next to pending Suspends and inside content that resolves later; the driver places the "
+        "`<!>` separators by tachys' Position rules (Driver/C07 markTexts) and the document oracle compares byte for byte, markers "
+        "included. Bare text is not generated directly after (or first inside) a Suspend / boundary / resource read: there the "
+        "position is a guess that depends on readiness (C05's known class suspend-position, F-C05-6: pending in-order "
+        "(\"a\", Suspend(\"done\"), \"z\") streams `a<!>donez`; ready at render time every mode gives `a<!>done<!>z` — confirmed at HEAD, nothing new)",
         "text atoms, <textarea> text and `title` attribute values include strings that need escaping (`<`, `&`, `>`, a double quote, "
         "`</textarea>`, a leading line feed, the stream's own marker / template / script syntax), also after a still-pending "
         "sibling and inside content that resolves later (round-4 seed 3); the driver prints them with Model/Html (C06's printer: "
